@@ -70,6 +70,7 @@ func funcKey(fn *ssa.Function) string {
 
 func (x *Exec) callStatic(cs *callSite, callee *ssa.Function, bindings []*Val) *Val {
 	key := funcKey(callee)
+	x.atCall(cs, callee)
 	if m, ok := libModels[key]; ok {
 		return m(x, cs)
 	}
@@ -1090,4 +1091,37 @@ func (x *Exec) havocExternal(cs *callSite, why string) {
 	na := x.sc.Fresh("alloc_"+why, st.alloc.Sort)
 	x.sc.Assume(T(SBool, "(forall ((a Int)) (! (=> (select %s a) (select %s a)) :pattern ((select %s a))))", st.alloc.S, na.S, na.S))
 	st.alloc = na
+}
+
+// atCall checks the `atcall <callee> assert <expr>` clauses of the function under verification.
+func (x *Exec) atCall(cs *callSite, callee *ssa.Function) {
+	c := x.w.contractOf(cs.fr.fn)
+	if c == nil {
+		return
+	}
+	short := callee.Name()
+	for i, cl := range c.Clauses {
+		if cl.Kind != "atcall" || (cl.Opt != short && cl.Opt != relFuncName(callee)) {
+			continue
+		}
+		env := x.contractEnv(cs.fr, cs.st)
+		x.bindLiveNames(env, cs.fr, cs.st)
+		for k, a := range cs.args {
+			cv := x.cvOfVal(a)
+			if k < len(cs.cc.Args) {
+				cv.Ty = cs.cc.Args[k].Type()
+			}
+			env.vars[fmt.Sprintf("arg%d", k)] = cv
+		}
+		t, err := x.evalBool(env, cl.Expr)
+		if err != nil {
+			x.unsupported("atcall clause: " + err.Error())
+			continue
+		}
+		name := fmt.Sprintf("atcall[%s#%d]", short, i)
+		if cl.Name != "" {
+			name = fmt.Sprintf("atcall[%s:%s]", short, cl.Name)
+		}
+		x.check(cs.st, "assert", x.oblName(cs.fr, name, cs.pos), t, clauseProps(cs.fr, cl), cl.Text, x.pos(cs.pos))
+	}
 }
